@@ -58,7 +58,7 @@ MODEL = dict(
              invariants=["NoViolation"], expect="violation", thorough={}),
     ],
     quick=dict(sample=4000, drive_runs=400, drive_len=40),
-    thorough=dict(sample=40000, drive_runs=8000, drive_len=60, tlc_timeout=3000),
+    thorough=dict(sample=12000, drive_runs=3000, drive_len=50, tlc_timeout=3000),
     need=[(o, r) for o in ("add_topic", "rm_topic", "add_issuer", "rm_issuer", "upd_issuer", "allow_key",
                            "remove_key", "add_claim", "rm_claim") for r in ("ok", "fail")]
     + [("revoke", "ok"), ("unrevoke", "ok"), ("bump", "ok"), ("tick", "ok")],
